@@ -1476,7 +1476,7 @@ fn leg_net(cfg: &Cfg) -> Local {
 
 pub fn run(cfg: &Cfg) -> Outcome {
     let leg = cfg.opt("--leg");
-    let want = |x: &str| leg.as_deref().map(|l| l == x).unwrap_or(cfg.only_case.is_none());
+    let want = |x: &str| leg.as_deref().map(|l| l == x).unwrap_or(cfg.only_case.is_none() || cfg.opt("--only-stream").is_some());
     let mut local = Local::new();
     let mut extra = serde_json::Map::new();
     if want("exh") {
